@@ -165,6 +165,39 @@ func (r *chunkReader) Read(p []byte) (int, error) {
 	return n, nil
 }
 
+// abortReader yields the first `at` bytes, then fails (after cancelling the caller's context, if asked to)
+type abortReader struct {
+	b      []byte
+	at     int
+	off    int
+	cancel context.CancelFunc
+	ctx    context.Context
+}
+
+func (r *abortReader) Read(p []byte) (int, error) {
+	if r.off >= r.at || r.off >= len(r.b) {
+		if r.cancel != nil {
+			r.cancel()
+			time.Sleep(20 * time.Millisecond) // let the cancellation reach the transport
+			return 0, r.ctx.Err()
+		}
+		return 0, errors.New("source reader failed")
+	}
+	n := len(p)
+	if n > 2048 {
+		n = 2048
+	}
+	if n > r.at-r.off {
+		n = r.at - r.off
+	}
+	if n > len(r.b)-r.off {
+		n = len(r.b) - r.off
+	}
+	copy(p, r.b[r.off:r.off+n])
+	r.off += n
+	return n, nil
+}
+
 type histEnv struct {
 	mode   string
 	dir    string
@@ -278,6 +311,36 @@ func (e *histEnv) step(t []string) (res string) {
 			return errClass(werr)
 		}
 		return "BAD-VIA"
+	case "setabort":
+		// setabort <h> <k> <v> <len> <at> <cancel|fail>: the source fails (or the caller cancels) after <at> bytes
+		st, ok := e.store(atoi(t[1]))
+		if !ok {
+			return "BAD-HANDLE"
+		}
+		key := e.keys[atoi(t[2])]
+		v, _ := strconv.ParseUint(t[3], 10, 64)
+		data := contentBytes(v, atoi(t[4]))
+		cctx, cancel := context.WithCancel(ctx)
+		defer cancel()
+		r := &abortReader{b: data, at: atoi(t[5]), cancel: nil}
+		if t[6] == "cancel" {
+			r.cancel = cancel
+			r.ctx = cctx
+		}
+		err := st.SetReader(cctx, key, r)
+		if e.mode == "grpc" {
+			// the caller is gone, the server-side handler may still be running: let it finish
+			// before the next read looks at the key
+			time.Sleep(150 * time.Millisecond)
+		}
+		if err == nil {
+			return "ok"
+		}
+		c := errClass(err)
+		if c == "err other" || c == "err Unknown" {
+			return "err foreign"
+		}
+		return c
 	case "del":
 		st, ok := e.store(atoi(t[1]))
 		if !ok {
